@@ -45,6 +45,56 @@ fn spaces(tier: Tier) -> Vec<Space> {
     }
 }
 
+/// rewrite rules whose applications appear as explicit proof leaves justified by the rule's name
+pub const RW_RULES: [(&str, &str, &str); 6] = [
+    ("b-comm", "(b ?x ?y)", "(b ?y ?x)"),
+    ("u-elim", "(u ?x)", "?x"),
+    ("f-comm", "(f $a $b)", "(f $b $a)"),
+    ("h-u", "(h $a)", "(u (h $a))"),
+    ("lam-swap", "(lam $z (b (var $z) ?x))", "(lam $z (b ?x (var $z)))"),
+    ("t-rot", "(t $a $b $c)", "(t $b $c $a)"),
+];
+
+#[derive(Clone, Debug)]
+pub enum XOp {
+    H(Op),
+    Rw(usize),
+}
+
+impl XOp {
+    pub fn show(&self) -> String {
+        match self {
+            XOp::H(o) => o.show(),
+            XOp::Rw(i) => format!("apply rule {}", RW_RULES[*i].0),
+        }
+    }
+}
+
+fn xalpha(name: &str) -> Vec<XOp> {
+    let mut v: Vec<XOp> = alphabet(name).into_iter().map(XOp::H).collect();
+    for i in 0..RW_RULES.len() {
+        v.push(XOp::Rw(i));
+    }
+    v
+}
+
+fn rw_spaces(tier: Tier) -> Vec<(&'static str, u32)> {
+    match tier {
+        Tier::Quick => vec![("MICRO", 2), ("SHARE", 2), ("MICRO", 3)],
+        Tier::Thorough => vec![("MICRO", 2), ("SHARE", 2), ("CORE", 2), ("MICRO", 3), ("SHARE", 3), ("MICRO", 4)],
+    }
+}
+
+fn xdecode(a: &[XOp], depth: u32, mut idx: u64) -> Vec<XOp> {
+    let n = a.len() as u64;
+    let mut v = Vec::new();
+    for _ in 0..depth {
+        v.push(a[(idx % n) as usize].clone());
+        idx /= n;
+    }
+    v
+}
+
 impl ExplainProp {
     fn segs(&self, tier: Tier) -> std::rc::Rc<Vec<SpaceSeg>> {
         cached_segments(&format!("explain{}", tier.name()), &spaces(tier))
@@ -250,6 +300,8 @@ mod imp {
         pub eg: &'a EGraph<Sym>,
         /// label -> the two invocations the user handed to union_justified under that label
         pub asserted: &'a BTreeMap<String, (AppliedId, AppliedId)>,
+        /// rule name -> (left pattern, right pattern)
+        pub rules: &'a BTreeMap<String, (crate::props::fires::P, crate::props::fires::P)>,
         pub memo: HashMap<*const ProvenEqRaw, Result<(), String>>,
         pub steps: u64,
         pub kinds: u64,
@@ -360,6 +412,10 @@ mod imp {
                 Proof::Explicit(ExplicitProof(j)) => {
                     self.kinds |= 16;
                     let Some(j) = j else { return Err(format!("leaf {here} carries no justification although every union was justified")) };
+                    if let Some((lp, rp)) = self.rules.get(j) {
+                        self.kinds |= 32;
+                        return check_rule_leaf(lp, rp, &cl, &cr).map_err(|e| format!("leaf {here} is justified by rule {j:?} but is not an instance of its two sides under one substitution: {e}"));
+                    }
                     let Some((ua, ub)) = self.asserted.get(j) else { return Err(format!("leaf {here} carries the justification {j:?}, which the user never gave")) };
                     // The user asserted `ua = ub` (two class invocations). The leaf must be that equation up to a
                     // renaming that is a function and injective on each side; argument slots the user's
@@ -387,6 +443,152 @@ mod imp {
                     Ok(())
                 }
             }
+        }
+    }
+
+    use crate::props::fires::{P, PA};
+
+    /// match a pattern against a term: pattern variables bind sub-terms, pattern slots bind slots
+    fn pmatch(p: &P, t: &ST, bp: &mut Vec<String>, bt: &mut Vec<Slot>, vars: &mut BTreeMap<String, (ST, Vec<Slot>)>, slots: &mut BTreeMap<String, Slot>) -> Result<(), String> {
+        match p {
+            P::Var(v) => {
+                // the binding may mention bound slots of the enclosing binders: remember them positionally
+                match vars.get(v) {
+                    None => {
+                        vars.insert(v.clone(), (t.clone(), bt.clone()));
+                        Ok(())
+                    }
+                    Some((old, _)) => {
+                        if match_term(old, t).map(|th| th.iter().all(|(a, b)| a == b)).unwrap_or(false) {
+                            Ok(())
+                        } else {
+                            Err(format!("?{v} is bound to {} and to {}", show(old), show(t)))
+                        }
+                    }
+                }
+            }
+            P::Node(op, args) => {
+                if *op != t.op || args.len() != t.args.len() {
+                    return Err(format!("pattern node {op} vs term {}", show(t)));
+                }
+                for (a, b) in args.iter().zip(t.args.iter()) {
+                    match (a, b) {
+                        (PA::Slot(x), SA::Slot(y)) => {
+                            let px = bp.iter().rposition(|s| s == x);
+                            let py = bt.iter().rposition(|s| s == y);
+                            match (px, py) {
+                                (Some(i), Some(j)) if i == j => {}
+                                (None, None) => match slots.get(x) {
+                                    Some(z) if z != y => return Err(format!("pattern slot ${x} is bound to {z} and to {y}")),
+                                    Some(_) => {}
+                                    None => {
+                                        if slots.values().any(|z| z == y) {
+                                            return Err(format!("two pattern slots are bound to {y}"));
+                                        }
+                                        slots.insert(x.clone(), *y);
+                                    }
+                                },
+                                _ => return Err(format!("bound/free mismatch at ${x} vs {y}")),
+                            }
+                        }
+                        (PA::Child(c), SA::Child(d)) => pmatch(c, d, bp, bt, vars, slots)?,
+                        (PA::Bind(xs, c), SA::Bind(ys, d)) => {
+                            if xs.len() != ys.len() {
+                                return Err("binder arity".into());
+                            }
+                            let (lp, lt) = (bp.len(), bt.len());
+                            bp.extend(xs.iter().cloned());
+                            bt.extend(ys.iter().copied());
+                            let r = pmatch(c, d, bp, bt, vars, slots);
+                            bp.truncate(lp);
+                            bt.truncate(lt);
+                            r?;
+                        }
+                        _ => return Err(format!("argument kinds differ in {}", show(t))),
+                    }
+                }
+                Ok(())
+            }
+        }
+    }
+
+    /// instantiate a pattern with the bindings found on the other side
+    fn pinst(p: &P, vars: &BTreeMap<String, (ST, Vec<Slot>)>, slots: &BTreeMap<String, Slot>, fresh: &mut u32) -> Result<ST, String> {
+        match p {
+            P::Var(v) => vars.get(v).map(|x| x.0.clone()).ok_or_else(|| format!("?{v} unbound")),
+            P::Node(op, args) => {
+                let mut out = Vec::new();
+                let mut local: BTreeMap<String, Slot> = slots.clone();
+                for a in args {
+                    match a {
+                        PA::Slot(x) => out.push(SA::Slot(*local.get(x).ok_or_else(|| format!("${x} unbound"))?)),
+                        PA::Child(c) => out.push(SA::Child(pinst(c, vars, &local, fresh)?)),
+                        PA::Bind(xs, c) => {
+                            let mut ys = Vec::new();
+                            for x in xs {
+                                let y = match local.get(x) {
+                                    Some(y) => *y,
+                                    None => {
+                                        *fresh += 1;
+                                        Slot::numeric(3_000_000 + *fresh)
+                                    }
+                                };
+                                local.insert(x.clone(), y);
+                                ys.push(y);
+                            }
+                            out.push(SA::Bind(ys, pinst(c, vars, &local, fresh)?));
+                        }
+                    }
+                }
+                Ok(ST { op, args: out })
+            }
+        }
+    }
+
+    /// the leaf (cl = cr) is an instance of the rule lp => rp under one substitution
+    fn check_rule_leaf(lp: &P, rp: &P, cl: &ST, cr: &ST) -> Result<(), String> {
+        let mut vars = BTreeMap::new();
+        let mut slots = BTreeMap::new();
+        // bound pattern slots of the left side are bound to the term's binder slots during matching;
+        // record them so that the right side can reuse them
+        fn bound_map(p: &P, t: &ST, out: &mut BTreeMap<String, Slot>) {
+            if let P::Node(_, args) = p {
+                for (a, b) in args.iter().zip(t.args.iter()) {
+                    match (a, b) {
+                        (PA::Bind(xs, c), SA::Bind(ys, d)) => {
+                            for (x, y) in xs.iter().zip(ys.iter()) {
+                                out.insert(x.clone(), *y);
+                            }
+                            bound_map(c, d, out);
+                        }
+                        (PA::Child(c), SA::Child(d)) => bound_map(c, d, out),
+                        _ => {}
+                    }
+                }
+            }
+        }
+        pmatch(lp, cl, &mut Vec::new(), &mut Vec::new(), &mut vars, &mut slots).map_err(|e| format!("left side does not match: {e}"))?;
+        let mut all = slots.clone();
+        bound_map(lp, cl, &mut all);
+        let mut fresh = 0;
+        let want = pinst(rp, &vars, &all, &mut fresh)?;
+        // equal up to alpha and up to the names of slots that occur on one side only (already redundant
+        // argument positions are filled with fresh names independently on both sides)
+        match match_term(&want, cr) {
+            Some(th) => {
+                // a slot may differ between the expected and the actual right side only in the way the
+                // library "disassociates" an argument position that is already redundant: the left-hand name
+                // occurs on the left side only, the right-hand name on the right side only
+                let lfv = fv(cl);
+                let rfv = fv(cr);
+                for (a, b) in &th {
+                    if a != b && (rfv.contains(a) || lfv.contains(b)) {
+                        return Err(format!("right side should be {} but is {}", show(&want), show(cr)));
+                    }
+                }
+                Ok(())
+            }
+            None => Err(format!("right side should be {} but is {}", show(&want), show(cr))),
         }
     }
 
@@ -466,7 +668,8 @@ mod imp {
                 }
             };
             let (tl, tr) = (st_of(&lre), st_of(&rre));
-            let mut ck = Checker { eg: &eg, asserted: &asserted, memo: HashMap::new(), steps: 0, kinds: 0 };
+            let norules = BTreeMap::new();
+            let mut ck = Checker { eg: &eg, asserted: &asserted, rules: &norules, memo: HashMap::new(), steps: 0, kinds: 0 };
             let res = catch(|| ck.check(&p));
             steps += ck.steps;
             goals |= (ck.kinds & 31) << 4;
@@ -506,6 +709,96 @@ mod imp {
         }
         Ok((fails, evals, goals, steps, fp))
     }
+
+    /// ordered sequence of justified unions, insertions and single-rule applications; every pair of
+    /// recorded handles (and every slot-swapped self pair) that eq() reports equal is explained
+    pub fn run_seq(ops: &[XOp]) -> Result<(Vec<Fail>, u64, u64, u64, u64), String> {
+        let nm = Naming::NumericOff(1);
+        let mut eg = EGraph::<Sym>::default();
+        let mut rec: Vec<(T, AppliedId)> = Vec::new();
+        let mut asserted: BTreeMap<String, (AppliedId, AppliedId)> = BTreeMap::new();
+        let rules: BTreeMap<String, (crate::props::fires::P, crate::props::fires::P)> = RW_RULES.iter().map(|(n, l, r)| (n.to_string(), (crate::props::fires::parse_p(l), crate::props::fires::parse_p(r)))).collect();
+        let mut rewrote = false;
+        for (k, op) in ops.iter().enumerate() {
+            let got = catch(|| match op {
+                XOp::H(Op::Union(l, r)) => {
+                    let a = add_t(&mut eg, l, nm, &mut rec);
+                    let b = add_t(&mut eg, r, nm, &mut rec);
+                    eg.union_justified(&a, &b, Some(format!("j{k}")));
+                    Some((a, b))
+                }
+                XOp::H(Op::Add(t)) => {
+                    add_t(&mut eg, t, nm, &mut rec);
+                    None
+                }
+                XOp::Rw(i) => {
+                    let (n, l, r) = RW_RULES[*i];
+                    let before = eg.total_number_of_nodes();
+                    apply_rewrites(&mut eg, &[Rewrite::new(n, l, r)]);
+                    if eg.total_number_of_nodes() != before {
+                        rewrote = true;
+                    }
+                    None
+                }
+            })?;
+            if let Some(ab) = got {
+                asserted.insert(format!("j{k}"), ab);
+            }
+        }
+        let mut fails: Vec<Fail> = Vec::new();
+        let mut evals = 0u64;
+        let mut goals = 0u64;
+        let mut steps = 0u64;
+        let mut fp = 0u64;
+        let terms: Vec<T> = rec.iter().map(|(t, _)| t.clone()).collect();
+        let q = queries_for(&terms);
+        for (i, j, l, r) in q.qs.iter() {
+            // select by the e-graph's own answer: whenever two terms are equal an explanation must exist
+            let lu = terms[*i].fv_ordered();
+            let ll = l.fv_ordered();
+            let rv = terms[*j].fv_ordered();
+            let rr = r.fv_ordered();
+            let ia = rec[*i].1.apply_slotmap(&name_map(&lu, &ll, nm, nm));
+            let ib = rec[*j].1.apply_slotmap(&name_map(&rv, &rr, nm, nm));
+            if !eg.eq(&ia, &ib) {
+                continue;
+            }
+            evals += 1;
+            let lre = to_recexpr(l, nm);
+            let rre = to_recexpr(r, nm);
+            let qs = format!("{} = {}", l.to_sexp(), r.to_sexp());
+            let p = match catch(|| eg.explain_equivalence(lre.clone(), rre.clone())) {
+                Ok(p) => p,
+                Err(site) => {
+                    fails.push(("explain-panic".into(), format!("explain_equivalence({qs}) panicked: {site}"), String::new()));
+                    continue;
+                }
+            };
+            let (tl, tr) = (st_of(&lre), st_of(&rre));
+            let mut ck = Checker { eg: &eg, asserted: &asserted, rules: &rules, memo: HashMap::new(), steps: 0, kinds: 0 };
+            let res = catch(|| ck.check(&p));
+            steps += ck.steps;
+            goals |= (ck.kinds & 31) << 4;
+            if ck.kinds & 32 != 0 {
+                goals |= 1 << 9;
+            }
+            fp ^= fnv_str(&format!("{qs}:{}", ck.steps));
+            match res {
+                Err(site) => fails.push(("explain-panic".into(), format!("walking the proof of {qs} panicked: {site}"), String::new())),
+                Ok(Err(msg)) => fails.push(("invalid-proof-step".into(), format!("proof of {qs}: {}", msg.split(':').next().unwrap_or("")), msg)),
+                Ok(Ok(())) => match ck.terms(&p) {
+                    Err(m) => fails.push(("explain-panic".into(), format!("conclusion of the proof of {qs}"), m)),
+                    Ok((cl, cr)) => {
+                        if !(match_equation(&cl, &cr, &tl, &tr)) {
+                            fails.push(("wrong-conclusion".into(), format!("proof returned for {qs} concludes something else"), format!("concludes {} = {}", show(&cl), show(&cr))));
+                        }
+                    }
+                },
+            }
+        }
+        let _ = rewrote;
+        Ok((fails, evals, goals, steps, fp))
+    }
 }
 
 impl Prop for ExplainProp {
@@ -519,7 +812,12 @@ impl Prop for ExplainProp {
         }
     }
     fn segments(&self, tier: Tier, _cfg: &str) -> Vec<Seg> {
-        self.segs(tier).iter().map(|s| s.seg.clone()).collect()
+        let mut v: Vec<Seg> = self.segs(tier).iter().map(|s| s.seg.clone()).collect();
+        for (a, d) in rw_spaces(tier) {
+            let n = xalpha(a).len() as u64;
+            v.push(Seg { name: format!("{a}+rules^{d}"), count: n.pow(d), what: format!("one index = one ordered sequence of {d} operations over the alphabet {a} (justified unions, insertions) plus {} single-rule applications; every pair of handles that eq() reports equal is explained and the proof re-checked, rule-justified leaves included", RW_RULES.len()) });
+        }
+        v
     }
     fn goals(&self) -> Vec<&'static str> {
         vec![
@@ -532,6 +830,7 @@ impl Prop for ExplainProp {
             "step_transitivity",
             "step_congruence",
             "step_explicit",
+            "leaf_justified_by_rule_name_checked",
         ]
     }
     fn rule(&self) -> String {
@@ -542,6 +841,10 @@ impl Prop for ExplainProp {
     }
     fn describe(&self, tier: Tier, _cfg: &str, seg: usize, idx: u64) -> Value {
         let segs = self.segs(tier);
+        if seg >= segs.len() {
+            let (a, d) = rw_spaces(tier)[seg - segs.len()];
+            return json!({"sequence": xdecode(&xalpha(a), d, idx).iter().map(|o| o.show()).collect::<Vec<_>>()});
+        }
         let ops = decode(&segs[seg], idx);
         json!({"multiset": ops.iter().map(|o| o.show()).collect::<Vec<_>>()})
     }
@@ -552,6 +855,35 @@ impl Prop for ExplainProp {
     #[cfg(feature = "expl")]
     fn exec(&self, tier: Tier, _cfg: &str, seg: usize, idx: u64) -> Exec {
         let segs = self.segs(tier);
+        if seg >= segs.len() {
+            let (a, d) = rw_spaces(tier)[seg - segs.len()];
+            let ops = xdecode(&xalpha(a), d, idx);
+            let mut out = Exec::default();
+            out.traces = 1;
+            out.transitions = ops.len() as u64;
+            let hs = ops.iter().map(|o| o.show()).collect::<Vec<_>>().join(" ; ");
+            let o2 = ops.clone();
+            match fresh_thread(move || imp::run_seq(&o2)) {
+                Err(site) | Ok(Err(site)) => {
+                    out.aborted.push(site);
+                    out.outcomes.push("aborted".into());
+                }
+                Ok(Ok((fails, evals, goals, steps, fp))) => {
+                    out.evaluations = evals;
+                    out.goals = goals;
+                    out.nontrivial = steps;
+                    out.fps.push(fp);
+                    out.outcomes.push(if fails.is_empty() { format!("valid-seq(rule-leaf={})", goals >> 9 & 1) } else { fails[0].0.clone() });
+                    let mut seen = std::collections::BTreeSet::new();
+                    for (k, key, d) in fails {
+                        if seen.insert((k.clone(), key.clone())) && seen.len() <= 8 {
+                            out.fail(&k, key, format!("{d}; history: {hs}"), &[]);
+                        }
+                    }
+                }
+            }
+            return out;
+        }
         let ops = decode(&segs[seg], idx);
         let mut out = Exec::default();
         let terms = tracked_terms(&ops);
